@@ -19,51 +19,34 @@ Proof. exact seg_independent. Qed.
 Print Assumptions C12_segmentation_independent.
 
 (* ---- 2. the reader is the reference decoder --------------------------------------------------- *)
-(* Full statement (RFC profile): REFUTED by the faithful model in three ways; each witness is replayed on the
-   implementation by harness/c12.py (corpus/C12/*.json, known_findings.d/C12.json). *)
 (* agrees_with_spec p c segs (Proofs/WsRefine.v): with the toy codec, feeding segs delivers fst (decode p c (concat segs))
    and ends in the status of its outcome *)
-(* [BINARY fin "12345"] with max_msg_size = 5: the reference delivers it, the reader fails with 1009 *)
-Theorem C12_refines_spec_refuted_exact_max :
-  exists c segs, ~ agrees_with_spec rfc_profile c segs.
-Proof.
-  exists (mkcfg 5 false true), [[130; 5; 49; 50; 51; 52; 53]].
-  unfold agrees_with_spec. vm_compute. intros [H _]. discriminate H.
-Qed.
-Print Assumptions C12_refines_spec_refuted_exact_max.
 
-(* [CLOSE 1006]: reserved status code, the reference fails with 1002, the reader delivers the close message *)
-Theorem C12_refines_spec_refuted_close_1006 :
-  exists c segs, ~ agrees_with_spec rfc_profile c segs.
-Proof.
-  exists (mkcfg 0 false true), [[136; 2; 3; 238]].
-  unfold agrees_with_spec. vm_compute. intros [H _]. discriminate H.
-Qed.
-Print Assumptions C12_refines_spec_refuted_close_1006.
-
-(* [TEXT nf "a"][BINARY nf "b"][CONT fin "c"]: interleaved data frame, the reference fails with 1002 at the
-   second frame, the reader delivers BINARY "abc" — with either profile *)
+(* Full statement: REFUTED by the faithful model in one way (open finding C12-data-frame-inside-fragmented-message,
+   replayed on the implementation by harness/c12.py).
+   [TEXT nf "a"][BINARY nf "b"][CONT fin "c"]: interleaved data frame, the reference fails with 1002 at the
+   second frame, the reader delivers BINARY "abc" *)
 Theorem C12_refines_spec_refuted_interleaved :
-  exists c segs, ~ agrees_with_spec rfc_profile c segs /\ ~ agrees_with_spec aiohttp_profile c segs.
+  exists c segs, ~ agrees_with_spec rfc_profile c segs.
 Proof.
   exists (mkcfg 0 false true), [[1; 1; 97; 2; 1; 98; 128; 1; 99]].
-  unfold agrees_with_spec. split; vm_compute; intros [H _]; discriminate H.
+  unfold agrees_with_spec. vm_compute. intros [H _]. discriminate H.
 Qed.
 Print Assumptions C12_refines_spec_refuted_interleaved.
 
-(* What IS proved, for all codecs / streams / segmentations: with the comparisons the code uses
-   (aiohttp_profile, regenerated from the source) the reader delivers exactly the messages of the reference
-   decoder up to the first violation, then fails with the reference's close code and delivers nothing more,
+(* What IS proved, for all codecs / streams / segmentations: the reader delivers exactly the messages of the RFC
+   reference decoder (hand-written rfc_profile: a message may be as large as max_msg_size; close codes as registered)
+   up to the first violation, then fails with the reference's close code and delivers nothing more,
    PROVIDED the first violation of the stream is not a data frame interleaved into a fragmented message
-   (hypothesis Hno; without it: C12_refines_spec_refuted_interleaved).
-   Missing for the full statement: the three deviations above (exact-fit size, close code 1006, interleaving). *)
+   (hypothesis Hno; without it: C12_refines_spec_refuted_interleaved).  That is the only thing missing for the
+   full statement. *)
 Theorem C12_refines_spec_partial :
   forall (Cx : Type) (decomp : Cx -> bytes -> N -> dres Cx) (c : cfg) (cx0 : Cx) (segs : list bytes),
     let r := feed_all Cx decomp c (Live (init_state Cx cx0)) segs in
-    let d := decode Cx decomp aiohttp_profile c cx0 (concat segs) in
+    let d := decode Cx decomp rfc_profile c cx0 (concat segs) in
     (forall e, snd d <> Violation e VDataInMessage) ->
     fst r = fst d /\ rd_status (snd r) = out_status (snd d).
-Proof. exact refines_aiohttp_profile. Qed.
+Proof. exact refines_rfc. Qed.
 Print Assumptions C12_refines_spec_partial.
 
 (* the hypothesis is satisfiable by a non-trivial stream: fragmented text with an interleaved ping, a compressed
@@ -71,37 +54,38 @@ Print Assumptions C12_refines_spec_partial.
 Example C12_refines_spec_partial_nonvacuous :
   let c := mkcfg 64 true true in
   let segs := [[1; 2; 104]; [101; 137; 0; 128; 3; 108; 108]; [111; 194; 2; 3; 7; 136; 2; 3; 232; 131; 0]] in
-  (forall e, snd (decode toycx toy_decomp aiohttp_profile c toy0 (concat segs)) <> Violation e VDataInMessage)
-  /\ decode toycx toy_decomp aiohttp_profile c toy0 (concat segs)
+  (forall e, snd (decode toycx toy_decomp rfc_profile c toy0 (concat segs)) <> Violation e VDataInMessage)
+  /\ decode toycx toy_decomp rfc_profile c toy0 (concat segs)
      = ([MPing []; MText [104; 101; 108; 108; 111]; MBinary [7; 7; 7]; MClose 1000 []], Violation (WsErr 1002) VOpcode)
-  /\ agrees_with_spec aiohttp_profile c segs /\ agrees_with_spec rfc_profile c segs.
+  /\ agrees_with_spec rfc_profile c segs.
 Proof. vm_compute. repeat split; intros; discriminate. Qed.
 Print Assumptions C12_refines_spec_partial_nonvacuous.
 
-(* the two profiles differ exactly at "payload size = max_msg_size" and at close code 1006 *)
-Theorem C12_profile_gap_wire :
-  forall mx n, n <> mx -> wire_too_big rfc_profile mx n = wire_too_big aiohttp_profile mx n.
-Proof. exact profile_gap_wire. Qed.
-Print Assumptions C12_profile_gap_wire.
+(* the comparisons regenerated from the source (pre-buffering size test, post-inflate size test, close-code test)
+   are the ones of the hand-written RFC profile *)
+Theorem C12_code_comparisons_are_rfc :
+  (forall mx n, wire_too_big aiohttp_profile mx n = wire_too_big rfc_profile mx n) /\
+  (forall mx n, msg_too_big aiohttp_profile mx n = msg_too_big rfc_profile mx n) /\
+  (forall code, close_ok aiohttp_profile code = close_ok rfc_profile code).
+Proof. exact aiohttp_is_rfc. Qed.
+Print Assumptions C12_code_comparisons_are_rfc.
 
-Theorem C12_profile_gap_inflated :
-  forall mx n, msg_too_big rfc_profile mx n = msg_too_big aiohttp_profile mx n.
-Proof. exact profile_gap_msg. Qed.
-Print Assumptions C12_profile_gap_inflated.
+(* regressions of the two repaired deviations (fix: 4d0d72b, 0ee4932): a message of exactly max_msg_size bytes is
+   delivered; a Close frame with the reserved status 1006 is a protocol error *)
+Example C12_regression_exact_max_accepted :
+  feed toycx toy_decomp (mkcfg 5 false true) (Live (init_state toycx toy0)) [130; 5; 49; 50; 51; 52; 53]
+  = ([MBinary [49; 50; 51; 52; 53]],
+     Live (R RH [] (mkm [] 16 toy0) true 2 [] 0 false (0, 0, 0, 0) 0 5 0))
+  /\ snd (feed toycx toy_decomp (mkcfg 5 false true) (Live (init_state toycx toy0)) [130; 6; 49; 50; 51; 52; 53; 54])
+     = Latched (WsErr 1009).
+Proof. vm_compute. split; reflexivity. Qed.
+Print Assumptions C12_regression_exact_max_accepted.
 
-Theorem C12_profile_gap_close :
-  forall code, code <> 1006 -> close_ok rfc_profile code = close_ok aiohttp_profile code.
-Proof. exact profile_gap_close. Qed.
-Print Assumptions C12_profile_gap_close.
-
-(* the comparisons regenerated from the source are exactly the deviations recorded as open findings
-   (known_quirks_profile is written by hand in Model/WsSpec.v and is what the harness explains deviations with) *)
-Theorem C12_code_comparisons_are_the_known_quirks :
-  (forall mx n, wire_too_big aiohttp_profile mx n = wire_too_big known_quirks_profile mx n) /\
-  (forall mx n, msg_too_big aiohttp_profile mx n = msg_too_big known_quirks_profile mx n) /\
-  (forall code, close_ok aiohttp_profile code = close_ok known_quirks_profile code).
-Proof. exact aiohttp_is_known_quirks. Qed.
-Print Assumptions C12_code_comparisons_are_the_known_quirks.
+Example C12_regression_close_1006_refused :
+  feed toycx toy_decomp (mkcfg 0 false true) (Live (init_state toycx toy0)) [136; 2; 3; 238] = ([], Latched (WsErr 1002))
+  /\ agrees_with_spec rfc_profile (mkcfg 0 false true) [[136; 2; 3; 238]].
+Proof. vm_compute. repeat split. Qed.
+Print Assumptions C12_regression_close_1006_refused.
 
 (* ---- 3. nothing after the violation; the functions are total ---------------------------------- *)
 Theorem C12_nothing_after_violation :
@@ -145,17 +129,17 @@ Theorem C12_oversize_refused_before_buffering :
   forall (Cx : Type) (decomp : Cx -> bytes -> N -> dres Cx) (c : cfg) (s : rstate Cx) (d : bytes) (len : N),
     s_phase s = RL -> s_lflag s < 126 -> len = s_lflag s ->
     max_msg_size c <> 0 -> is_data (s_fop s) = true ->
-    max_msg_size c <= len + lenN (m_partial (s_m s)) ->
+    max_msg_size c < len + lenN (m_partial (s_m s)) ->
     iter Cx decomp c s d = PFail (WsErr 1009).
 Proof. exact oversize_rejected. Qed.
 Print Assumptions C12_oversize_refused_before_buffering.
 
-(* hypotheses satisfiable: limit 8, 3 bytes collected, a BINARY continuation announcing 5 more *)
+(* hypotheses satisfiable: limit 8, 3 bytes collected, a continuation announcing 6 more *)
 Example C12_oversize_example :
   let c := mkcfg 8 false false in
-  let s := R RL [] (mkm [1; 2; 3] 2 toy0) false 0 [] 0 false (0, 0, 0, 0) 0 5 0 in
-  s_lflag s < 126 /\ is_data (s_fop s) = true /\ max_msg_size c <= 5 + lenN (m_partial (s_m s))
-  /\ iter toycx toy_decomp c s [9; 9; 9; 9; 9] = PFail (WsErr 1009).
+  let s := R RL [] (mkm [1; 2; 3] 2 toy0) false 0 [] 0 false (0, 0, 0, 0) 0 6 0 in
+  s_lflag s < 126 /\ is_data (s_fop s) = true /\ max_msg_size c < 6 + lenN (m_partial (s_m s))
+  /\ iter toycx toy_decomp c s [9; 9; 9; 9; 9; 9] = PFail (WsErr 1009).
 Proof. vm_compute. repeat split; congruence. Qed.
 Print Assumptions C12_oversize_example.
 
@@ -181,6 +165,24 @@ Example C12_memory_bound_nonvacuous :
 Proof. vm_compute. split; reflexivity. Qed.
 Print Assumptions C12_memory_bound_nonvacuous.
 
+(* no entry of _payload_fragments outlives its frame (fix 9d0c64f): whenever the reader is not in the middle of a
+   payload the list is empty, for every stream and segmentation — so len(_payload_fragments), which triggers
+   pause_reading() above _max_fragments, only counts the reads of the frame being received *)
+Theorem C12_no_stale_fragments :
+  forall (Cx : Type) (decomp : Cx -> bytes -> N -> dres Cx) (c : cfg) (cx0 : Cx) (segs : list bytes) (s : rstate Cx),
+    snd (feed_all Cx decomp c (Live (init_state Cx cx0)) segs) = Live s -> s_phase s <> RP -> s_nfrags s = 0.
+Proof. exact no_stale_fragments. Qed.
+Print Assumptions C12_no_stale_fragments.
+
+(* header and payload in two reads (the case that used to leak): one entry while the payload is awaited, none after *)
+Example C12_no_stale_fragments_example :
+  let c := mkcfg 1024 false false in
+  let st segs := match snd (feed_all toycx toy_decomp c (Live (init_state toycx toy0)) segs) with
+                 | Live s => Some (s_phase s, s_nfrags s) | _ => None end in
+  st [[130; 2]] = Some (RP, 1) /\ st [[130; 2]; [97; 98]] = Some (RH, 0) /\ st [[130; 2]; [97; 98]; [130; 2]; [97; 98]] = Some (RH, 0).
+Proof. vm_compute. repeat split. Qed.
+Print Assumptions C12_no_stale_fragments_example.
+
 (* ... even under decompression: the reader never asks the codec for more than max_msg_size + 1 bytes; the codec
    is assumed to honour max_length (premise; validated for zlib by the harness, proved for the toy codec) *)
 Theorem C12_inflation_bounded :
@@ -205,6 +207,11 @@ Theorem C12_utf8_encodings_valid :
   forall (s : str) (b : bytes), utf8_encode s = Some b -> utf8_valid b = true.
 Proof. exact utf8_encode_valid. Qed.
 Print Assumptions C12_utf8_encodings_valid.
+
+Theorem C12_utf8_valid_iff_encoding :
+  forall b : bytes, utf8_valid b = true <-> exists s : str, utf8_encode s = Some b.
+Proof. exact utf8_valid_iff_encoding. Qed.
+Print Assumptions C12_utf8_valid_iff_encoding.
 
 Theorem C12_utf8_valid_iff_decodes :
   forall b : bytes, utf8_valid b = true <-> exists t, utf8_decode b = Some t.
